@@ -127,6 +127,26 @@ CLAIMS = {
         technique='Lean 4 proof (induction over the text for the scanner, stack-machine invariant for the builder) + '
                   'model/implementation correspondence + independent-printer oracle',
         ref='DESIGN.md §5 C01'),
+    'C07': dict(
+        text='Lean 4 theorems over the scanner and builder models, for ALL token streams and tag bodies: tagRole_html_congr, '
+             'build_congr_html (the block builder depends on a token only through end-flag, name and arguments: streams with the '
+             'same literals and same-meaning tokens build the same tree, list the same expressions and fail at the same token), '
+             'var_never_continues, tagRole_epfs_eq_html (String.parseTag on a %(…) token = HTML.parseTag on the corresponding '
+             'token), findCloseAux_clean, findSub_arrow, nameMatchLen_append, dtml_ssi_same_token (<dtml-X args> and '
+             '<!--#X args--> scan to tokens with the same name and arguments, or both to no tag, for every body free of > and "), '
+             'entity_is_var_html_quote (&dtml-n; = var "n html_quote"), dotted_entity_is_var (&dtml.m1.m2-n; = var "n m1 m2"). '
+             'Correspondence: compiled tree of the model for every spelling vs the real parser; oracle: the spellings of one '
+             'abstract template (2x dtml, 2x SSI incl. /, end, END forms, %(…)) are all accepted or all rejected, compile to '
+             'equal normalised programs and render to equal text / exception / call log on 3 namespaces; entity references '
+             'for all modifier subsets of size <= 2 (+samples) vs the var spellings; entities right after end tags; '
+             'else-with-arguments with 5 separators',
+        note='Trusted: Lean kernel; hand-compiled scanners validated against CPython re by the correspondence. Partial: the '
+             '%(…) scanner\'s agreement with the <dtml-> scanner is tied by correspondence/oracle (the Lean side proves the '
+             'parseTag/builder half for %(…) and both halves for dtml vs SSI and for entities); rendering equality follows from '
+             'equal programs and is additionally observed on the implementation',
+        technique='Lean 4 proof (congruence of the builder, list lemmas about the scanners) + model/implementation '
+                  'correspondence + pairwise-equality oracle',
+        ref='DESIGN.md §5 C07'),
     'C08': dict(
         text='Lean 4 theorems about the interpreter model (Render.lean: namespace stack, lookups with auto-call, '
              'expressions, every block tag, sub-template calls, dtml-return, exceptions, fault plans as part of the '
